@@ -351,6 +351,15 @@ class Engine:
             else:
                 yield kind, payload, st
 
+    def s_With(self, node, state):
+        # `with <lock>:` -- sequential semantics (A9): the body runs, the lock is a no-op.  The lock
+        # discipline itself is a separate (static) obligation of C20.
+        for item in node.items:
+            src = ast.unparse(item.context_expr)
+            if "lock" not in src.lower() or item.optional_vars is not None:
+                raise Unsupported("with statement over %s" % src)
+        yield from self.exec_block(node.body, state)
+
     def s_Break(self, node, state):
         yield "break", None, state
 
